@@ -20,7 +20,7 @@ def run(ctx):
                 "non-trivial = scenario in which the injected fault was reached (counted from the trace)")
     ctx.assumptions = _writer.ASSUME + _reader.ASSUME
     _writer.model(ctx)
-    _reader.model(ctx, ["fixed_fault", "c02_q"], ["fixed_fault", "c02_q", "fixed_cap2", "fixed_rd3"])
+    _reader.model(ctx, ["fixed_fault", "c02_q", "live"], ["fixed_fault", "c02_q", "fixed_cap2", "fixed_rd3", "live", "live_fault"])
     _writer.drive_and_validate(ctx, ["fault", "hold"], selftest_on="fault")
     trace = ctx.work + "/rdf.ndjson"
     s = ctx.drive(["rd", "--mode", "faults", "--out", trace], timeout=7200)
